@@ -1,102 +1,225 @@
 """facts_C05.py -- per-property translator of C05 (run by tools/regen.py -> coq/Gen/FactsC05.v).
 
-Only the Python `ast` is used; every shape that is not recognised raises Unsupported (fail-closed:
-regen.py then removes Gen/FactsC05.v, so exactly the C05 proofs stop compiling).
+Only the Python `ast` is used; what cannot be understood raises Unsupported (fail-closed: regen.py
+then removes Gen/FactsC05.v, so exactly the C05 proofs stop compiling).  The facts are about MEANING,
+not spelling: local names, annotations, comments, docstrings, a closure versus a bound method, a
+temporary versus an inlined expression, private helpers of the same class (seen through), nested
+`with` versus `with a, b` do not matter.
 
-Emitted facts
-  handler_with_order   the order of the two context managers of the `with` statement around the
-                       handler call in grpclib/server.py request_handler (`with deadline_wrapper,
-                       wrapper:`): entering `wrapper` FIRST would make the request task a member of
-                       the wrapper before DeadlineWrapper.start() cancels it for an expired deadline
-  start_expired        what grpclib/utils.py DeadlineWrapper.start does when nothing remains
-                       (`if not timeout:`): the statements of that branch (bind the error,
-                       self.cancel(error), raise error)
-  start_armed          the rest of start(): call_later(timeout, callback) / yield / finally timer.cancel()
+Emitted facts (both are used by Model/ServerDeadline.v `expired_status`)
+  handler_with_order   the ROLES of the context managers entered around the awaited handler call in
+                       grpclib/server.py request_handler, outermost first: CMDeadline = the object
+                       returned by `<DeadlineWrapper>.start(..)` (or nullcontext()), CMWrapper = the
+                       Wrapper / DeadlineWrapper instance itself.  Entering the wrapper FIRST would
+                       make the request task a member before start() cancels it for an expired deadline.
+  start_expired        what utils.DeadlineWrapper.start does on the path where time_remaining() is
+                       falsy, as the sequence over {SA_cancel = self.cancel(<TimeoutError>),
+                       SA_raise = raise <TimeoutError>} in execution order.
 """
 import ast
 
-from extract_facts import Unsupported, parse, func_node
+from extract_facts import Unsupported, parse, func_node, class_node
+
+WRAPPER_CLASSES = {'Wrapper', 'DeadlineWrapper'}
+
+
+# ---- request_handler: roles of the context managers ------------------------------------------------
+
+def _assign_values(fn):
+    """name -> list of value expressions ever assigned to it in fn (all branches)"""
+    out = {}
+    for n in ast.walk(fn):
+        if isinstance(n, ast.Assign):
+            for t in n.targets:
+                if isinstance(t, ast.Name):
+                    out.setdefault(t.id, []).append(n.value)
+        elif isinstance(n, ast.AnnAssign) and n.value is not None and isinstance(n.target, ast.Name):
+            out.setdefault(n.target.id, []).append(n.value)
+        elif isinstance(n, ast.NamedExpr) and isinstance(n.target, ast.Name):
+            out.setdefault(n.target.id, []).append(n.value)
+    return out
+
+
+def _role(expr, env, seen=()):
+    """'deadline' | 'wrapper' | None for a context-manager expression"""
+    if isinstance(expr, ast.Call):
+        f = expr.func
+        if isinstance(f, ast.Attribute) and f.attr == 'start':
+            return 'deadline' if _role(f.value, env, seen) == 'wrapper' else None
+        if isinstance(f, ast.Name) and f.id == 'nullcontext':
+            return 'deadline'                       # the no-deadline stand-in of start()
+        if isinstance(f, ast.Name) and f.id in WRAPPER_CLASSES:
+            return 'wrapper'
+        if isinstance(f, ast.Attribute) and f.attr in WRAPPER_CLASSES:
+            return 'wrapper'
+        return None
+    if isinstance(expr, ast.Name):
+        if expr.id in seen or expr.id not in env:
+            return None
+        roles = {_role(v, env, seen + (expr.id,)) for v in env[expr.id]}
+        return roles.pop() if len(roles) == 1 else None
+    if isinstance(expr, ast.Attribute):             # e.g. _stream.wrapper bound in a chained assignment
+        return None
+    return None
+
+
+def _has_await(nodes):
+    return any(isinstance(x, ast.Await) for n in nodes for x in ast.walk(n))
 
 
 def with_order(repo):
     fn = func_node(parse(repo, 'grpclib/server.py'), 'request_handler')
-    found = []
+    env = _assign_values(fn)
+
+    def items_roles(w):
+        return [_role(it.context_expr, env) for it in w.items]
+
+    chains = []
     for n in ast.walk(fn):
         if isinstance(n, ast.With):
-            names = []
-            for it in n.items:
-                if it.optional_vars is not None or not isinstance(it.context_expr, ast.Name):
-                    names = None
-                    break
-                names.append(it.context_expr.id)
-            if names and set(names) & {'deadline_wrapper', 'wrapper'}:
-                found.append((names, n))
-    if len(found) != 1:
-        raise Unsupported('request_handler: expected exactly one `with` over deadline_wrapper / wrapper, '
-                          'found %d' % len(found))
-    names, node = found[0]
-    if sorted(names) != ['deadline_wrapper', 'wrapper']:
-        raise Unsupported('request_handler: `with` items %r' % (names,))
-    # the body must await the handler inside it
-    body_src = ast.unparse(ast.Module(body=node.body, type_ignores=[]))
-    if 'await method_func(stream)' not in body_src:
-        raise Unsupported('request_handler: the handler is not awaited inside the `with`')
-    return names
+            roles = items_roles(n)
+            if not any(roles):
+                continue
+            body = n.body
+            # `with a:` immediately containing only `with b:` is `with a, b:`
+            while len(body) == 1 and isinstance(body[0], ast.With) and any(items_roles(body[0])):
+                roles = roles + items_roles(body[0])
+                body = body[0].body
+            chains.append((roles, body, n))
+    # drop inner withs already absorbed into an outer chain
+    outer = []
+    for roles, body, n in chains:
+        if not any(n is not m and any(x is n for x in ast.walk(m)) and any(r for r in rs)
+                   for rs, _, m in chains):
+            outer.append((roles, body))
+    if len(outer) != 1:
+        raise Unsupported('request_handler: expected one `with` over the deadline context and the wrapper, '
+                          'found %d' % len(outer))
+    roles, body = outer[0]
+    if sorted(r or '?' for r in roles) != ['deadline', 'wrapper']:
+        raise Unsupported('request_handler: roles of the with items: %r' % (roles,))
+    if not _has_await(body):
+        raise Unsupported('request_handler: nothing is awaited inside the `with`')
+    return roles
 
 
-def start_shape(repo):
-    fn = func_node(parse(repo, 'grpclib/utils.py'), 'start', 'DeadlineWrapper')
-    body = [s for s in fn.body if not (isinstance(s, ast.Expr) and isinstance(s.value, ast.Constant))]
-    if len(body) < 2:
-        raise Unsupported('DeadlineWrapper.start: body')
-    a0 = body[0]
-    if not (isinstance(a0, ast.Assign) and ast.unparse(a0) == 'timeout = deadline.time_remaining()'):
-        raise Unsupported('DeadlineWrapper.start: first statement ' + ast.unparse(a0))
-    br = body[1]
-    if not (isinstance(br, ast.If) and ast.unparse(br.test) == 'not timeout' and not br.orelse):
-        raise Unsupported('DeadlineWrapper.start: expired test ' + ast.unparse(br))
+# ---- DeadlineWrapper.start: the path taken when nothing remains -----------------------------------
+
+def _is_timeout_ctor(e):
+    if not isinstance(e, ast.Call):
+        return False
+    f = e.func
+    return (isinstance(f, ast.Name) and f.id == 'TimeoutError') or \
+        (isinstance(f, ast.Attribute) and f.attr == 'TimeoutError')
+
+
+def _falsy_test(test, names):
+    """does `test` hold exactly when the remaining time (one of `names`) is falsy / not positive?"""
+    def is_rem(e):
+        return isinstance(e, ast.Name) and e.id in names
+    if isinstance(test, ast.UnaryOp) and isinstance(test.op, ast.Not) and is_rem(test.operand):
+        return True
+    if isinstance(test, ast.Compare) and len(test.ops) == 1 and is_rem(test.left) and \
+            isinstance(test.comparators[0], ast.Constant) and test.comparators[0].value == 0 and \
+            isinstance(test.ops[0], (ast.Eq, ast.LtE)):
+        return True
+    return False
+
+
+def _truthy_test(test, names):
+    if isinstance(test, ast.Name) and test.id in names:
+        return True
+    if isinstance(test, ast.Compare) and len(test.ops) == 1 and isinstance(test.left, ast.Name) and \
+            test.left.id in names and isinstance(test.comparators[0], ast.Constant) and \
+            test.comparators[0].value == 0 and isinstance(test.ops[0], (ast.Gt, ast.NotEq)):
+        return True
+    return False
+
+
+def _expired_actions(stmts, cls, errs, depth=0):
+    """the cancel / raise sequence of a straight-line statement list; private helpers of the class
+    called without arguments are seen through"""
     acts = []
-    for s in br.body:
-        src = ast.unparse(s)
-        if src == "error = asyncio.TimeoutError('Deadline exceeded')":
-            acts.append('SA_bind_timeout_error')
-        elif src == 'self.cancel(error)':
-            acts.append('SA_cancel')
-        elif src == 'raise error':
+    for s in stmts:
+        if isinstance(s, ast.Expr) and isinstance(s.value, ast.Constant):
+            continue                                                  # docstring
+        if isinstance(s, (ast.Assign, ast.AnnAssign)) and s.value is not None:
+            tgts = s.targets if isinstance(s, ast.Assign) else [s.target]
+            if _is_timeout_ctor(s.value) and all(isinstance(t, ast.Name) for t in tgts):
+                errs.update(t.id for t in tgts)
+                continue
+            raise Unsupported('DeadlineWrapper.start: expired path assigns ' + ast.unparse(s))
+        if isinstance(s, ast.Expr) and isinstance(s.value, ast.Call):
+            c = s.value
+            f = c.func
+            if isinstance(f, ast.Attribute) and isinstance(f.value, ast.Name) and f.value.id == 'self':
+                if f.attr == 'cancel' and len(c.args) == 1 and not c.keywords and \
+                        (_is_timeout_ctor(c.args[0]) or
+                         (isinstance(c.args[0], ast.Name) and c.args[0].id in errs)):
+                    acts.append('SA_cancel')
+                    continue
+                if f.attr.startswith('_') and not c.args and not c.keywords and depth < 3:
+                    helper = [m for m in cls.body if isinstance(m, ast.FunctionDef) and m.name == f.attr]
+                    if len(helper) == 1:
+                        acts += _expired_actions(helper[0].body, cls, errs, depth + 1)
+                        continue
+            raise Unsupported('DeadlineWrapper.start: expired path calls ' + ast.unparse(s))
+        if isinstance(s, ast.Raise) and s.exc is not None and s.cause is None and \
+                (_is_timeout_ctor(s.exc) or (isinstance(s.exc, ast.Name) and s.exc.id in errs)):
             acts.append('SA_raise')
-        else:
-            raise Unsupported('DeadlineWrapper.start: expired branch statement ' + src)
-    rest = '\n'.join(ast.unparse(s) for s in body[2:])
-    armed = []
-    for needle, name in [("self.cancel(asyncio.TimeoutError('Deadline exceeded'))", 'SA_callback_cancels'),
-                         ('timer = loop.call_later(timeout, callback)', 'SA_call_later_timeout'),
-                         ('yield', 'SA_yield'), ('timer.cancel()', 'SA_finally_timer_cancel')]:
-        if needle not in rest:
-            raise Unsupported('DeadlineWrapper.start: missing `%s`' % needle)
-        armed.append(name)
-    if 'finally' not in rest:
-        raise Unsupported('DeadlineWrapper.start: no finally')
-    return acts, armed
+            return acts                                               # nothing runs after the raise
+        raise Unsupported('DeadlineWrapper.start: expired path statement ' + ast.unparse(s))
+    return acts
+
+
+def start_expired(repo):
+    tree = parse(repo, 'grpclib/utils.py')
+    cls = class_node(tree, 'DeadlineWrapper')
+    fn = func_node(tree, 'start', 'DeadlineWrapper')
+    params = [a.arg for a in fn.args.args][1:]
+    rem = set()
+    for i, s in enumerate(fn.body):
+        if isinstance(s, ast.Expr) and isinstance(s.value, ast.Constant):
+            continue
+        if isinstance(s, (ast.Assign, ast.AnnAssign)) and s.value is not None and \
+                isinstance(s.value, ast.Call) and isinstance(s.value.func, ast.Attribute) and \
+                s.value.func.attr == 'time_remaining' and isinstance(s.value.func.value, ast.Name) and \
+                s.value.func.value.id in params:
+            tgts = s.targets if isinstance(s, ast.Assign) else [s.target]
+            rem.update(t.id for t in tgts if isinstance(t, ast.Name))
+            continue
+        if isinstance(s, ast.If) and rem:
+            if _falsy_test(s.test, rem):
+                branch = s.body
+            elif _truthy_test(s.test, rem):
+                branch = s.orelse
+            else:
+                raise Unsupported('DeadlineWrapper.start: test ' + ast.unparse(s.test))
+            acts = _expired_actions(branch, cls, set())
+            if not acts or acts[-1] != 'SA_raise':
+                raise Unsupported('DeadlineWrapper.start: the expired path does not end in a raise')
+            return acts
+        raise Unsupported('DeadlineWrapper.start: statement before the expired test: ' + ast.unparse(s)[:80])
+    raise Unsupported('DeadlineWrapper.start: no test of the remaining time')
 
 
 def generate(repo):
-    names = with_order(repo)
-    acts, armed = start_shape(repo)
-    cm = {'deadline_wrapper': 'CMDeadline', 'wrapper': 'CMWrapper'}
+    roles = with_order(repo)
+    acts = start_expired(repo)
+    cm = {'deadline': 'CMDeadline', 'wrapper': 'CMWrapper'}
     return '\n'.join([
         '(* GENERATED by tools/facts_C05.py from /repo -- do not edit; rewritten on every run *)',
         'From Coq Require Import List.',
         'Import ListNotations.',
         '',
-        '(* the context managers of `with ..., ...:` around the handler call in server.request_handler *)',
+        '(* roles of the context managers entered around the handler call in server.request_handler,',
+        '   outermost first *)',
         'Inductive cm := CMDeadline | CMWrapper.',
-        'Definition handler_with_order : list cm := [%s].' % '; '.join(cm[n] for n in names),
+        'Definition handler_with_order : list cm := [%s].' % '; '.join(cm[r] for r in roles),
         '',
-        '(* utils.DeadlineWrapper.start: the `if not timeout:` branch, and the rest *)',
-        'Inductive start_act := SA_bind_timeout_error | SA_cancel | SA_raise',
-        '  | SA_callback_cancels | SA_call_later_timeout | SA_yield | SA_finally_timer_cancel.',
+        '(* utils.DeadlineWrapper.start on the path where nothing remains: cancel / raise, in order *)',
+        'Inductive start_act := SA_cancel | SA_raise.',
         'Definition start_expired : list start_act := [%s].' % '; '.join(acts),
-        'Definition start_armed : list start_act := [%s].' % '; '.join(armed),
         '',
     ])
 
